@@ -246,7 +246,7 @@ pub fn run(ctx: &mut Ctx) {
         ctx.forall(&format!("sequences/{}", id.name()), cases, strat(id, max), dispatch);
     }
     for id in [CodecId::MIupac, CodecId::MDna] {
-        let lens = gen::long_lens(ctx.thorough(), ctx.seed);
+        let lens = gen::long_lens_bits(id.bits(), ctx.thorough(), ctx.seed);
         let m = id.model();
         let allowed: Vec<u8> = m.syms.iter().filter(|s| s.1 != b'?' && s.1 != b'!').map(|s| s.0).collect();
         ctx.forall_lens(
